@@ -330,6 +330,8 @@ def judge(sc, env, kind, fault, state, outcome, res, hits, ref):
             hits.hit("C13", "reply.classify", f"{kind}: reply with status 0 reported as failure: {str(res)[:120]}",
                      outcome="falsy-on-success", status="0", **f)
         return
+    if st == 0x1E and kind in ("multiread", "multiwrite"):
+        return      # 'embedded service error': the verdict is in the embedded replies, which this fault did not define
     six = st == 6
     if six and mt in ("bitflip", "garbage", "truncate"):
         return      # the corruption may have hit the data as well: continuation cannot be judged
@@ -568,6 +570,8 @@ def gen(seed, tier, prop="C13"):
         ext = [r.randrange(65536) for _ in range(r.choice((0, 0, 1, 1, 2, 3)))]
         if r.random() < 0.3:
             ext = [r.choice((0x2105, 0x2107, 0x2104, 0x0100, 0x0107, 0x0311))]
+        if st in (0, 6):
+            ext = []        # additional status words accompany error statuses only (Vol 1 2-4.2)
         mut = {"type": "status", "status": st, "ext": ext, "keep_data": r.random() < 0.5}
         if r.random() < 0.25:
             mut["then_truncate"] = r.randrange(36, 60)
